@@ -28,6 +28,10 @@ def one_config(path, rm, tier, env):
         m.update(clif.check_design(out[:i], layout, rm["rtl"], timeout_ms=20000 if tier == "quick" else 120000))
     except clif.Unsupported as e:
         m.update(verdict="unsupported", why=str(e)[:120])
+    except clif.z3.Z3Exception as e:
+        # the emitted IR does not type-check in the encoder (e.g. `select` over an i64 and an i128 arm): the replay
+        # decides whether the real engine survives it
+        m.update(verdict="illtyped", why=str(e)[:160])
     except subprocess.TimeoutExpired:
         m.update(verdict="unsupported", why="tvdump clif timeout")
     return m
